@@ -1911,3 +1911,372 @@ pub fn c03(args: &Args) -> Report {
     rep.set("deviation_bound_completed", json!(2));
     rep
 }
+
+// ------------------------------------------------------------------------------------------------
+// C12: INIT negotiation
+
+use fuse_backend_rs::abi::fuse_abi::FsOptions;
+use fuse_backend_rs::api::{Vfs, VfsOptions};
+
+#[derive(Clone, Copy, Debug, PartialEq, Eq)]
+pub enum Ext {
+    Present,
+    Absent,
+    Truncated,
+}
+
+fn init_req(major: u32, minor: u32, flags64: u64, ext: Ext, readahead: u32) -> Vec<u8> {
+    let mut b = vec![0u8; k::FUSE_INIT_IN.size];
+    wire::put(&mut b, &k::FUSE_INIT_IN, "major", major as u64);
+    wire::put(&mut b, &k::FUSE_INIT_IN, "minor", minor as u64);
+    wire::put(&mut b, &k::FUSE_INIT_IN, "max_readahead", readahead as u64);
+    wire::put(&mut b, &k::FUSE_INIT_IN, "flags", flags64 & 0xffff_ffff);
+    wire::put(&mut b, &k::FUSE_INIT_IN, "flags2", flags64 >> 32);
+    match ext {
+        Ext::Present => {}
+        Ext::Absent => b.truncate(16),
+        Ext::Truncated => b.truncate(16 + 20),
+    }
+    Req::new(k::FUSE_INIT, 1, b).unique(0x1234_5678_9abc_def0).bytes()
+}
+
+/// What the client effectively offered, as the protocol defines it: the high word counts only
+/// when FUSE_INIT_EXT is set and the extended payload is there.
+fn effective_capable(flags64: u64, ext: Ext) -> u64 {
+    let lo = flags64 & 0xffff_ffff;
+    if lo & k::FUSE_INIT_EXT != 0 {
+        if ext == Ext::Present {
+            flags64
+        } else {
+            lo & !k::FUSE_INIT_EXT
+        }
+    } else {
+        lo
+    }
+}
+
+pub struct InitReply {
+    pub error: i32,
+    pub body_len: usize,
+    pub major: u32,
+    pub minor: u32,
+    pub flags64: u64,
+    pub flags_lo: u32,
+    pub max_write: u32,
+    pub max_pages: u32,
+    pub max_readahead: u32,
+}
+
+fn parse_init(rec: &[u8]) -> Result<InitReply, String> {
+    let r = wire::parse_reply(rec)?;
+    let mut b = r.body.clone();
+    let n = b.len();
+    b.resize(k::FUSE_INIT_OUT.size.max(n), 0);
+    let g = |f: &str| wire::get(&b, &k::FUSE_INIT_OUT, f);
+    Ok(InitReply {
+        error: r.error,
+        body_len: n,
+        major: g("major") as u32,
+        minor: g("minor") as u32,
+        flags_lo: g("flags") as u32,
+        flags64: g("flags") | (g("flags2") << 32),
+        max_write: g("max_write") as u32,
+        max_pages: g("max_pages") as u32,
+        max_readahead: g("max_readahead") as u32,
+    })
+}
+
+#[allow(clippy::too_many_arguments)]
+fn c12_server_case(rig: &mut Rig, rep: &mut Report, major: u32, minor: u32, flags64: u64, ext: Ext, want: u64, fail: bool, tr: &Tr) {
+    rep.eval();
+    rep.transitions += 1;
+    rig.fresh_server();
+    let req = init_req(major, minor, flags64, ext, 0x20000);
+    let mut ans = Answer::default();
+    ans.want = want;
+    if fail {
+        ans.fail = Some(Fail::Errno(libc::EACCES));
+    }
+    let (ex, log) = rig.run(&req, tr, ans);
+    let (recs, mut problems) = client_view(tr, &ex);
+    if let Some(p) = &ex.panic {
+        problems.push(("panic".into(), p.clone()));
+    }
+    let known = FsOptions::all().bits();
+    let eff = effective_capable(flags64, ext);
+    let mut outcome = "no-reply".to_string();
+    if recs.len() != 1 {
+        problems.push(("reply-count".into(), format!("{} replies to INIT", recs.len())));
+    } else {
+        match parse_init(&recs[0]) {
+            Err(e) => problems.push(("short-reply".into(), e)),
+            Ok(r) => {
+                if major < 7 {
+                    outcome = format!("major<7:err{}", r.error);
+                    if r.error != -libc::EPROTO {
+                        problems.push(("major-mismatch".into(), format!("major {} answered with error {}", major, r.error)));
+                    }
+                    if !log.is_empty() {
+                        problems.push(("major-mismatch".into(), "filesystem initialised for an unsupported major".into()));
+                    }
+                } else if major > 7 {
+                    outcome = "major>7:version-only".to_string();
+                    if r.error != 0 || r.major != 7 || r.flags64 != 0 || r.max_write != 0 {
+                        problems.push(("major-mismatch".into(), format!("major {} must be answered with major 7 and nothing else (error {}, major {}, flags {:#x})", major, r.error, r.major, r.flags64)));
+                    }
+                    if !log.is_empty() {
+                        problems.push(("major-mismatch".into(), "filesystem initialised before the client downgraded".into()));
+                    }
+                } else if fail {
+                    outcome = format!("init-failed:err{}", r.error);
+                    if r.error != -libc::EACCES {
+                        problems.push(("init-error".into(), format!("filesystem init failed with EACCES, reply error {}", r.error)));
+                    }
+                } else {
+                    let expect_len = if minor < 5 { 8 } else if minor < 23 { 24 } else { 64 };
+                    outcome = format!("negotiated:len{}", r.body_len);
+                    if r.error != 0 {
+                        problems.push(("unexpected-error".into(), format!("error {}", r.error)));
+                    } else {
+                        if r.body_len != expect_len {
+                            problems.push(("reply-size".into(), format!("minor {} answered with {} bytes, the client expects {}", minor, r.body_len, expect_len)));
+                        }
+                        if r.major != 7 {
+                            problems.push(("version".into(), format!("reply major {}", r.major)));
+                        }
+                        if log != vec![format!("init capable={:#x}", eff & known)] {
+                            problems.push(("capable".into(), format!("client offered {:#x} (effective {:#x}), filesystem saw {:?}", flags64, eff & known, log)));
+                        }
+                        if r.body_len >= 24 {
+                            let full = if r.body_len >= 64 { r.flags64 } else { r.flags_lo as u64 };
+                            let expect = eff & want & known;
+                            let visible = if r.body_len >= 64 { expect } else { expect & 0xffff_ffff };
+                            // FUSE_INIT_EXT marks the encoding (flags2 valid); it is compared separately
+                            let m = !k::FUSE_INIT_EXT;
+                            if full & m != visible & m {
+                                problems.push(("intersection".into(), format!("capable {:#x} want {:#x}: reply enables {:#x}, intersection is {:#x}", eff, want, full, visible)));
+                            }
+                            if full & k::FUSE_INIT_EXT != 0 && eff & k::FUSE_INIT_EXT == 0 {
+                                problems.push(("ext-marker-not-offered".into(), format!("reply sets FUSE_INIT_EXT, the client did not offer it (capable {:#x})", eff)));
+                            }
+                            if full & k::FUSE_INIT_EXT == 0 && visible & k::FUSE_INIT_EXT != 0 {
+                                problems.push(("intersection".into(), format!("both sides asked for FUSE_INIT_EXT, reply {:#x} lacks it", full)));
+                            }
+                            if r.body_len >= 64 && (r.flags64 >> 32) != 0 && (r.flags_lo as u64 & k::FUSE_INIT_EXT) == 0 {
+                                problems.push(("ext-marker".into(), format!("flags2 {:#x} set without FUSE_INIT_EXT in flags {:#x}: the client ignores flags2", r.flags64 >> 32, r.flags_lo)));
+                            }
+                            let enabled = expect;
+                            if r.max_write > (1 << 20) {
+                                problems.push(("max-write".into(), format!("max_write {} exceeds the 1 MiB request buffer", r.max_write)));
+                            }
+                            if r.max_write < 4096 {
+                                problems.push(("max-write".into(), format!("max_write {} below one page", r.max_write)));
+                            }
+                            if r.body_len >= 64 && enabled & k::FUSE_MAX_PAGES != 0 && (r.max_pages as u64) * 4096 < r.max_write as u64 {
+                                problems.push(("max-pages".into(), format!("max_pages {} does not cover max_write {}", r.max_pages, r.max_write)));
+                            }
+                            if enabled & (k::FUSE_MAX_PAGES | k::FUSE_BIG_WRITES) == 0 && r.max_write != 4096 {
+                                problems.push(("max-write".into(), format!("max_write {} without BIG_WRITES/MAX_PAGES", r.max_write)));
+                            }
+                            if r.max_readahead > 0x20000 {
+                                problems.push(("readahead".into(), format!("max_readahead {} larger than offered", r.max_readahead)));
+                            }
+                        }
+                    }
+                }
+            }
+        }
+    }
+    rep.outcome(&format!("init:{}:{}", outcome, if problems.is_empty() { "ok" } else { "MISMATCH" }));
+    rep.state_of(&(major, minor, flags64, ext as u8, want, fail));
+    rep.sample(|| json!({"major": major, "minor": minor, "flags": format!("{:#x}", flags64), "ext": format!("{:?}", ext), "want": format!("{:#x}", want), "transport": tr.label(), "outcome": outcome}));
+    for (class, msg) in problems {
+        rep.violation(&format!("C12/server/{}", class), &msg, || {
+            json!({"engine": "c12-server", "major": major, "minor": minor, "flags64": format!("{:#x}", flags64), "ext": format!("{:?}", ext), "want": format!("{:#x}", want),
+                   "fs_fails": fail, "transport": tr.to_replay(), "request_hex": hex(&req), "records": recs.iter().map(|r| hex(r)).collect::<Vec<_>>()})
+        });
+    }
+}
+
+const RELEVANT: [u64; 12] = [
+    k::FUSE_INIT_EXT, k::FUSE_BIG_WRITES, k::FUSE_MAX_PAGES, k::FUSE_ATOMIC_O_TRUNC, k::FUSE_WRITEBACK_CACHE,
+    k::FUSE_NO_OPEN_SUPPORT, k::FUSE_NO_OPENDIR_SUPPORT, k::FUSE_HANDLE_KILLPRIV_V2, k::FUSE_DO_READDIRPLUS,
+    k::FUSE_HAS_INODE_DAX, k::FUSE_HAS_RESEND, 1u64 << 63,
+];
+
+fn subset(bits: &[u64], mask: usize) -> u64 {
+    bits.iter().enumerate().filter(|(i, _)| mask >> i & 1 == 1).fold(0, |a, (_, b)| a | b)
+}
+
+/// The VFS layer: switches x offered capabilities, then behaviour probes.
+fn c12_vfs(rep: &mut Report, idx: &mut u64, dev: &mut FuseDev) {
+
+    let bits = [k::FUSE_NO_OPEN_SUPPORT, k::FUSE_NO_OPENDIR_SUPPORT, k::FUSE_WRITEBACK_CACHE, k::FUSE_HANDLE_KILLPRIV_V2, k::FUSE_ATOMIC_O_TRUNC, k::FUSE_HAS_INODE_DAX | k::FUSE_INIT_EXT];
+    for sw in 0..16usize {
+        for cm in 0..(1usize << bits.len()) {
+            if rep.mine(*idx) {
+                rep.eval();
+                let (no_open, no_opendir, no_writeback, killpriv) = (sw & 1 != 0, sw & 2 != 0, sw & 4 != 0, sw & 8 != 0);
+                let opts = VfsOptions { no_open, no_opendir, no_writeback, killpriv_v2: killpriv, ..VfsOptions::default() };
+                let want_cfg = opts.out_opts.bits();
+                let vfs = Arc::new(Vfs::new(opts));
+                let server = Server::new(vfs.clone());
+                let capable = subset(&bits, cm) | k::FUSE_ASYNC_READ | k::FUSE_BIG_WRITES;
+                let mut problems: Vec<(String, String)> = vec![];
+                let send = |dev: &mut FuseDev, req: &[u8]| -> Option<wire::Reply> {
+                    let ex = dev.via_sep(&server, req, 8192);
+                    ex.records.first().and_then(|r| wire::parse_reply(r).ok())
+                };
+                rep.transitions += 4;
+                let r = dev.via_sep(&server, &init_req(7, 36, capable, Ext::Present, 4096), 8192);
+                rep.transitions += 1;
+                let enabled = match r.records.first().map(|x| parse_init(x)) {
+                    Some(Ok(ir)) if ir.error == 0 => ir.flags64,
+                    other => {
+                        problems.push(("init-failed".into(), format!("INIT not answered with success: {:?}", other.map(|x| x.map(|y| y.error)))));
+                        0
+                    }
+                };
+                // the VFS may only enable what the client offered and its configuration allows
+                let allowed = capable & want_cfg
+                    & !(if no_open { 0 } else { k::FUSE_NO_OPEN_SUPPORT })
+                    & !(if no_opendir { 0 } else { k::FUSE_NO_OPENDIR_SUPPORT })
+                    & !(if no_writeback { k::FUSE_WRITEBACK_CACHE } else { 0 })
+                    & !(if killpriv { 0 } else { k::FUSE_HANDLE_KILLPRIV_V2 });
+                let allowed = allowed | (capable & k::FUSE_INIT_EXT);
+                if enabled & !allowed != 0 {
+                    problems.push(("enabled-not-allowed".into(), format!("enabled {:#x} contains {:#x} which the client or the configuration excludes", enabled, enabled & !allowed)));
+                }
+                if enabled & k::FUSE_NO_OPEN_SUPPORT != 0 && enabled & k::FUSE_ATOMIC_O_TRUNC != 0 {
+                    problems.push(("no-open-with-atomic-trunc".into(), format!("enabled {:#x}", enabled)));
+                }
+                if (enabled >> 32) != 0 && enabled & k::FUSE_INIT_EXT == 0 {
+                    problems.push(("ext-marker".into(), format!("enabled {:#x}: high bits without FUSE_INIT_EXT, the client ignores them", enabled)));
+                }
+                // behaviour follows the negotiation
+                let mut c = wf_case(k::FUSE_OPEN);
+                c.nodeid = 1;
+                c.f.insert("flags", 0);
+                let open = send(dev, &c.req().bytes());
+                let mut c2 = wf_case(k::FUSE_OPENDIR);
+                c2.nodeid = 1;
+                c2.f.insert("flags", 0);
+                let opendir = send(dev, &c2.req().bytes());
+                let enosys = |r: &Option<wire::Reply>| r.as_ref().map(|x| x.error == -libc::ENOSYS).unwrap_or(false);
+                if enosys(&open) != (enabled & k::FUSE_NO_OPEN_SUPPORT != 0) {
+                    problems.push(("no-open-behaviour".into(), format!("OPEN answered {:?} although zero-message-open negotiated = {}", open.as_ref().map(|x| x.error), enabled & k::FUSE_NO_OPEN_SUPPORT != 0)));
+                }
+                if enosys(&opendir) != (enabled & k::FUSE_NO_OPENDIR_SUPPORT != 0) {
+                    problems.push(("no-opendir-behaviour".into(), format!("OPENDIR answered {:?} although zero-message-opendir negotiated = {}", opendir.as_ref().map(|x| x.error), enabled & k::FUSE_NO_OPENDIR_SUPPORT != 0)));
+                }
+                // a second INIT is refused and changes nothing
+                let r2 = dev.via_sep(&server, &init_req(7, 36, u64::MAX & !(1 << 31), Ext::Present, 4096), 8192);
+                rep.transitions += 1;
+                match r2.records.first().map(|x| parse_init(x)) {
+                    Some(Ok(ir)) if ir.error < 0 => {}
+                    other => problems.push(("second-init-accepted".into(), format!("second INIT answered {:?}", other.map(|x| x.map(|y| y.error))))),
+                }
+                let open2 = send(dev, &c.req().bytes());
+                let opendir2 = send(dev, &c2.req().bytes());
+                if enosys(&open2) != enosys(&open) || enosys(&opendir2) != enosys(&opendir) {
+                    problems.push(("second-init-changed-behaviour".into(), "OPEN/OPENDIR behave differently after a refused second INIT".into()));
+                }
+                rep.outcome(&format!("vfs:sw{}:{}", sw, if problems.is_empty() { "ok" } else { "MISMATCH" }));
+                rep.state_of(&("vfs", sw, cm, enabled));
+                rep.sample(|| json!({"layer": "vfs", "no_open": no_open, "no_opendir": no_opendir, "no_writeback": no_writeback, "killpriv_v2": killpriv, "capable": format!("{:#x}", capable), "enabled": format!("{:#x}", enabled)}));
+                for (class, msg) in problems {
+                    rep.violation(&format!("C12/vfs/{}", class), &msg, || {
+                        json!({"engine": "c12-vfs", "no_open": no_open, "no_opendir": no_opendir, "no_writeback": no_writeback, "killpriv_v2": killpriv, "capable": format!("{:#x}", capable), "enabled": format!("{:#x}", enabled)})
+                    });
+                }
+            }
+            *idx += 1;
+        }
+    }
+}
+
+pub fn c12(args: &Args) -> Report {
+    let mut rep = args.report();
+    let mut rig = Rig::new();
+    let thorough = args.thorough();
+    let mut idx = 0u64;
+    let minors: Vec<u32> = vec![0, 3, 4, 5, 22, 23, 27, 33, 35, 36, 38, u32::MAX];
+    let trs = [Tr::Sep(4096), virt_simple(4096, false)];
+    // every known option bit plus some undefined ones
+    let mut bits: Vec<u64> = (0..64).map(|i| 1u64 << i).filter(|b| FsOptions::all().bits() & b != 0).collect();
+    bits.extend([1u64 << 29, 1 << 31, 1 << 32, 1 << 36, 1 << 62]);
+    let backgrounds: [(u64, u64); 4] = [(0, 0), (u64::MAX, u64::MAX), (u64::MAX, 0), (0, u64::MAX)];
+    // part 1: majors and minors, with and without the extended payload, filesystem failing or not
+    for major in [0u32, 6, 7, 8, u32::MAX] {
+        for &minor in &minors {
+            for ext in [Ext::Present, Ext::Absent, Ext::Truncated] {
+                for (cap, want) in [(0u64, 0u64), (u64::MAX, u64::MAX), (0xffff_ffff, u64::MAX), (u64::MAX & !k::FUSE_INIT_EXT, u64::MAX)] {
+                    for fail in [false, true] {
+                        for tr in &trs {
+                            if rep.mine(idx) {
+                                c12_server_case(&mut rig, &mut rep, major, minor, cap, ext, want, fail, tr);
+                            }
+                            idx += 1;
+                        }
+                    }
+                }
+            }
+        }
+    }
+    // part 2: DEV(2) over option bits: every pair of bits x all 16 (capable, want) assignments x 4 backgrounds
+    let pair_minors: Vec<u32> = if thorough { vec![5, 22, 23, 36, u32::MAX] } else { vec![22, 36] };
+    for i in 0..bits.len() {
+        for j in i..bits.len() {
+            for combo in 0..16u32 {
+                if i == j && combo >= 4 {
+                    continue;
+                }
+                for (bc, bw) in backgrounds {
+                    let pair = bits[i] | bits[j];
+                    let mut cap = bc & !pair;
+                    let mut want = bw & !pair;
+                    if combo & 1 != 0 {
+                        cap |= bits[i];
+                    }
+                    if combo & 2 != 0 {
+                        want |= bits[i];
+                    }
+                    if combo & 4 != 0 {
+                        cap |= bits[j];
+                    }
+                    if combo & 8 != 0 {
+                        want |= bits[j];
+                    }
+                    for &minor in &pair_minors {
+                        for ext in [Ext::Present, Ext::Absent] {
+                            if rep.mine(idx) {
+                                c12_server_case(&mut rig, &mut rep, 7, minor, cap, ext, want, false, &trs[(idx % 2) as usize]);
+                            }
+                            idx += 1;
+                        }
+                    }
+                }
+            }
+        }
+    }
+    // part 3: every subset of the twelve behaviour-relevant bits on both sides
+    let step = if thorough { 1 } else { 7 };
+    let mut cm = 0usize;
+    while cm < 4096 {
+        let mut wm = 0usize;
+        while wm < 4096 {
+            if rep.mine(idx) {
+                c12_server_case(&mut rig, &mut rep, 7, 36, subset(&RELEVANT, cm), Ext::Present, subset(&RELEVANT, wm), false, &trs[0]);
+            }
+            idx += 1;
+            wm += step;
+        }
+        cm += step;
+    }
+    // part 4: the VFS layer
+    let mut dev = FuseDev::new();
+    c12_vfs(&mut rep, &mut idx, &mut dev);
+    rep.set("total_cases_all_shards", json!(idx));
+    rep.set("option_bits", json!(bits.len()));
+    rep
+}
